@@ -7,3 +7,5 @@ import OsyrisProofs.C04
 #print axioms Osyris.C04.key_prefix_current
 #print axioms Osyris.C04.C04_interval_pick
 #print axioms Osyris.C04.C04_cube_not_finer
+#print axioms Osyris.C04.C04_preselect_sound
+#print axioms Osyris.C04.C04_box_sound
